@@ -6,6 +6,10 @@ what `Driver/Core.lean` executes when the harness validates traces of the REAL c
 (every real handler execution is mapped to actions of this model; the action's guard must hold and
 the abstract state of the real node must equal the model state afterwards).
 
+Nodes `0 … N-1` are the voters; any node id `≥ N` is a read-only node (observer): it can receive
+appends and snapshots, adopt terms and apply, but no action lets it time out, vote, lead or appear in a
+quorum (`IsQuorum` only contains ids `< N`).
+
 Positions are 0-based: position 0 is the initial no-op entry `(NO_OP, idx 1, term 0)` that every
 PySyncObj log starts with, so *real index = position + 1*.  Logs are ghost-complete (compaction only
 drops applied entries and is invisible here; snapshot installation is the action `recvSnapshot`).
@@ -73,6 +77,7 @@ inductive Action
   | sendSnapshot (n dst k : Nat)
   | recvSnapshot (n : Nat) (m : Msg)
   | lose (m : Msg)
+  | restart (n c a : Nat)
 deriving Repr
 
 /-! ## pure protocol functions (shared with the handler-level model) -/
@@ -192,14 +197,14 @@ def step (N : Nat) (s : State) : Action → Option State
     else none
   | .sendAppend n dst prev k =>
     let ns := s.nodes n
-    if n < N ∧ dst < N ∧ dst ≠ n ∧ ns.role = .leader ∧ prev < ns.log.length then
+    if n < N ∧ dst ≠ n ∧ ns.role = .leader ∧ prev < ns.log.length then
       let es := (ns.log.drop (prev + 1)).take k
       some { s with msgs := s.msgs ++ [Msg.append ns.term n dst prev (termAt ns.log prev) es ns.commit] }
     else none
   | .recvAppend n m =>
     match m with
     | .append t ldr dst prev prevTerm es c =>
-      if n < N ∧ dst = n ∧ m ∈ s.msgs then
+      if dst = n ∧ m ∈ s.msgs then
         let ns := s.nodes n
         let msgs' := s.msgs.erase m
         if t < ns.term then some { s with msgs := msgs' }
@@ -238,19 +243,19 @@ def step (N : Nat) (s : State) : Action → Option State
     if n < N ∧ ns.role = .leader then some (setNode s n { ns with role := .follower }) else none
   | .apply n =>
     let ns := s.nodes n
-    if n < N ∧ ns.applied < ns.commit then some (setNode s n { ns with applied := ns.applied + 1 }) else none
+    if ns.applied < ns.commit then some (setNode s n { ns with applied := ns.applied + 1 }) else none
   | .observeTerm n t =>
     let ns := s.nodes n
-    if n < N ∧ ns.term ≤ t then some (setNode s n (adoptTerm ns t)) else none
+    if ns.term ≤ t then some (setNode s n (adoptTerm ns t)) else none
   | .sendSnapshot n dst k =>
     let ns := s.nodes n
-    if n < N ∧ dst < N ∧ dst ≠ n ∧ ns.role = .leader ∧ k ≤ ns.applied ∧ k < ns.log.length then
+    if n < N ∧ dst ≠ n ∧ ns.role = .leader ∧ k ≤ ns.applied ∧ k < ns.log.length then
       some { s with msgs := s.msgs ++ [Msg.snapshot ns.term n dst k (termAt ns.log k) ns.commit (ns.log.take (k + 1))] }
     else none
   | .recvSnapshot n m =>
     match m with
     | .snapshot t ldr dst k kTerm c pfx =>
-      if n < N ∧ dst = n ∧ m ∈ s.msgs then
+      if dst = n ∧ m ∈ s.msgs then
         let ns := s.nodes n
         let msgs' := s.msgs.erase m
         if t < ns.term then some { s with msgs := msgs' }
@@ -266,6 +271,14 @@ def step (N : Nat) (s : State) : Action → Option State
       else none
     | _ => none
   | .lose m => if m ∈ s.msgs then some { s with msgs := s.msgs.erase m } else none
+  | .restart n c a =>
+    -- kill + restart of a journaled node (with the term/vote persistence repair D16): term, vote and
+    -- log survive; role, vote count and leader bookkeeping are lost; the commit index falls back to a
+    -- stored earlier value `c`, the applied index to the position `a` of the dump file (or 0).
+    let ns := s.nodes n
+    if a ≤ c ∧ c ≤ ns.commit then
+      some (setNode s n { ns with role := .follower, votes := 0, matchIdx := fun _ => 0, commit := c, applied := a })
+    else none
 
 def init : State := {}
 
